@@ -74,39 +74,39 @@ def decodeInt (i : Bytes) (h : Header) : Outcome Int :=
     let init : Int := if b0.toNat < 128 then 0 else -1
     pure ((i.take h.length).foldl (fun acc x => wrapI64 (acc * 256 + x.toNat)) init)
 
-def intDecoder : Decoder Int := ⟨tagInt, true, false, decodeInt⟩
+def intDecoder : Decoder Int := ⟨intTag, intAllowPrimitive, intAllowConstructed, decodeInt⟩
 
 /-- unsigned accumulators: `(acc << 8) | x` in `u32` / `u64`. -/
 def decodeUnsigned (bits : Nat) (i : Bytes) (h : Header) : Outcome Nat :=
   .ok ((i.take h.length).foldl (fun acc x => (acc * 256 + x.toNat) % 2 ^ bits) 0)
 
-def counter32Decoder : Decoder Nat := ⟨tagAppCounter32, true, false, decodeUnsigned 32⟩
-def gauge32Decoder : Decoder Nat := ⟨tagAppGauge32, true, false, decodeUnsigned 32⟩
-def timeticksDecoder : Decoder Nat := ⟨tagAppTimeticks, true, false, decodeUnsigned 32⟩
-def uinteger32Decoder : Decoder Nat := ⟨tagAppUinteger32, true, false, decodeUnsigned 32⟩
-def counter64Decoder : Decoder Nat := ⟨tagAppCounter64, true, false, decodeUnsigned 64⟩
+def counter32Decoder : Decoder Nat := ⟨counter32Tag, counter32AllowPrimitive, counter32AllowConstructed, decodeUnsigned 32⟩
+def gauge32Decoder : Decoder Nat := ⟨gauge32Tag, gauge32AllowPrimitive, gauge32AllowConstructed, decodeUnsigned 32⟩
+def timeticksDecoder : Decoder Nat := ⟨timeticksTag, timeticksAllowPrimitive, timeticksAllowConstructed, decodeUnsigned 32⟩
+def uinteger32Decoder : Decoder Nat := ⟨uinteger32Tag, uinteger32AllowPrimitive, uinteger32AllowConstructed, decodeUnsigned 32⟩
+def counter64Decoder : Decoder Nat := ⟨counter64Tag, counter64AllowPrimitive, counter64AllowConstructed, decodeUnsigned 64⟩
 
 def decodeBool (i : Bytes) (h : Header) : Outcome Bool :=
   if h.length ≠ 1 then .err .InvalidData else do
   let b ← idx i 0
   pure (b.toNat ≠ 0)
 
-def boolDecoder : Decoder Bool := ⟨tagBool, true, false, decodeBool⟩
+def boolDecoder : Decoder Bool := ⟨boolTag, boolAllowPrimitive, boolAllowConstructed, decodeBool⟩
 
 def decodeNull (_i : Bytes) (h : Header) : Outcome Unit :=
   if h.length ≠ 0 then .err .InvalidTagFormat else .ok ()
 
-def nullDecoder : Decoder Unit := ⟨tagNull, true, false, decodeNull⟩
+def nullDecoder : Decoder Unit := ⟨nullTag, nullAllowPrimitive, nullAllowConstructed, decodeNull⟩
 
 /-- `&i[..h.length]` decoders (OCTET STRING, OID, ObjectDescriptor, Opaque, RELATIVE-OID, SEQUENCE). -/
 def decodeSlice (i : Bytes) (h : Header) : Outcome Bytes := sliceTo i h.length
 
-def octetsDecoder : Decoder Bytes := ⟨tagOctetString, true, false, decodeSlice⟩
-def oidDecoder : Decoder Bytes := ⟨tagObjectId, true, false, decodeSlice⟩
-def objDescDecoder : Decoder Bytes := ⟨tagObjectDescriptor, true, false, decodeSlice⟩
-def opaqueDecoder : Decoder Bytes := ⟨tagAppOpaque, true, false, decodeSlice⟩
-def relOidDecoder : Decoder Bytes := ⟨tagRelativeOid, true, false, decodeSlice⟩
-def sequenceDecoder : Decoder Bytes := ⟨tagSequence, false, true, decodeSlice⟩
+def octetsDecoder : Decoder Bytes := ⟨octetsTag, octetsAllowPrimitive, octetsAllowConstructed, decodeSlice⟩
+def oidDecoder : Decoder Bytes := ⟨oidTag, oidAllowPrimitive, oidAllowConstructed, decodeSlice⟩
+def objDescDecoder : Decoder Bytes := ⟨objDescTag, objDescAllowPrimitive, objDescAllowConstructed, decodeSlice⟩
+def opaqueDecoder : Decoder Bytes := ⟨opaqueTag, opaqueAllowPrimitive, opaqueAllowConstructed, decodeSlice⟩
+def relOidDecoder : Decoder Bytes := ⟨relOidTag, relOidAllowPrimitive, relOidAllowConstructed, decodeSlice⟩
+def sequenceDecoder : Decoder Bytes := ⟨sequenceTag, sequenceAllowPrimitive, sequenceAllowConstructed, decodeSlice⟩
 
 def decodeIpAddress (i : Bytes) (h : Header) : Outcome (Nat × Nat × Nat × Nat) :=
   if h.length ≠ 4 then .err .InvalidTagFormat else do
@@ -117,7 +117,7 @@ def decodeIpAddress (i : Bytes) (h : Header) : Outcome (Nat × Nat × Nat × Nat
   pure (a.toNat, b.toNat, c.toNat, d.toNat)
 
 def ipAddressDecoder : Decoder (Nat × Nat × Nat × Nat) :=
-  ⟨tagAppIpaddress, true, false, decodeIpAddress⟩
+  ⟨ipAddressTag, ipAddressAllowPrimitive, ipAddressAllowConstructed, decodeIpAddress⟩
 
 /-- `SnmpOption::from_ber` (overridden trait method): any constructed element of universal
 or context class; yields the tag number and the content. -/
@@ -227,7 +227,7 @@ def decodeReal (i0 : Bytes) (h : Header) : Outcome FloatVal :=
   else if f = 67 then .ok .negZero
   else .err .InvalidData
 
-def realDecoder : Decoder FloatVal := ⟨tagReal, true, false, decodeReal⟩
+def realDecoder : Decoder FloatVal := ⟨realTag, realAllowPrimitive, realAllowConstructed, decodeReal⟩
 
 /-! ## SnmpValue -/
 
